@@ -37,6 +37,24 @@ def c01_eval_scalar(v, spec):
     return False
 
 
+@pred('C01-eval-dimension-guess')
+def c01_eval_dimguess(v, spec):
+    # eval()/pncexpr() whose value is a plain array (operands read with [...]
+    # from a file on disk carry no dimension names) store it under the
+    # dimension tuple of the FIRST name of the expression found in the file.
+    # When the assignment target already exists that is the target itself,
+    # not the operand, and the shapes need not agree.
+    if v['kind'] not in ('malformed-result:eval',
+                         'malformed-result:fn_pncexpr'):
+        return False
+    m = v.get('meta', {})
+    if not (m.get('plain_array_value') and m.get('target_exists')):
+        return False
+    pr = v.get('problems') or []
+    return bool(pr) and all(('variable NEW(' in p or 'variable XNEW(' in p)
+                            and 'shape' in p for p in pr)
+
+
 @pred('C03-integer-truncation')
 def c03_int_trunc(v, spec):
     # applyAlongDimensions stores the function's result in a variable of the
